@@ -690,6 +690,16 @@ class BuiltinMixin:
             return self.str_join(recv, args[0], node)
         if name == 'tobytes':
             return recv
+        if name in ('islower', 'isupper') and not args:
+            if conc:
+                return getattr(recv, name)()
+            if kind != 'bytes':
+                raise Unsupported('str.%s on a symbolic str (Unicode case tables are not modelled; bytes only)' % name)
+            # bytes.islower(): at least one ASCII lowercase letter and no ASCII uppercase letter (and dually)
+            from .strmodel import contains_char_in
+            USED_MODELS.add('bytes.islower / bytes.isupper: ASCII case classes [a-z] / [A-Z] (CPython bytes semantics)')
+            lo, up = contains_char_in(to_zstr(recv), [(97, 122)]), contains_char_in(to_zstr(recv), [(65, 90)])
+            return z3.And(lo, z3.Not(up)) if name == 'islower' else z3.And(up, z3.Not(lo))
         raise Unsupported('str method ' + name)
 
     def str_transform(self, recv, name, args, node):
